@@ -71,7 +71,8 @@ func main() {
 			os.Exit(3)
 		}
 		run := &run{o: o, k: k, r: r, cl: cl, dec: newDecoder(cl), pf: pf, silent: map[int]bool{},
-			txs: map[util.Uint256]*transaction.Transaction{}, committed: map[uint32]*block.Block{}, maxTx: int(opts.maxTxPerBlock)}
+			txs: map[util.Uint256]*transaction.Transaction{}, committed: map[uint32]*block.Block{}, maxTx: int(opts.maxTxPerBlock),
+			commitAt: map[uint32]map[int]byte{}, hadAsync: pf.steps > 0}
 		run.line(fmt.Sprintf("init %d", nv))
 		for _, nd := range cl.nodes {
 			nd.srv.Start()
@@ -89,10 +90,10 @@ func main() {
 			run.injectTx(to)
 		}
 		run.adversarial()
-		if run.machinery == nil {
+		if run.ok() {
 			run.fair(pf.fairBlocks)
 		}
-		if run.machinery == nil {
+		if run.ok() {
 			run.final()
 		}
 		_, hi := run.heights()
